@@ -89,7 +89,7 @@ def gen_var(rng, name, dt, node_in_force, feat=None):
     dk = feat.get("def", rng.choice(["none", "dec", "hex", "rel0", "rel1", "dec", "hex"]))
     if dk != "none":
         v["def"] = value_tok(dk)
-    if "def" not in feat and dt in enc.INT and rng.random() < 0.08:
+    if "def" not in feat and (dt in enc.INT or dt in (enc.VSTR, enc.USTR, enc.OSTR, enc.DOMAIN)) and rng.random() < 0.08:
         v["def"] = {"k": "empty"}      # "DefaultValue=" with nothing behind it, as many real files have
     vk = feat.get("val", rng.choice(["none", "none", "dec", "hex"]))
     if vk != "none":
@@ -180,7 +180,7 @@ def gen_doc(rng, nobj=12, features=None):
                                                       f if s == subs[0] else None)})
         else:
             obj["otype"] = 8
-            obj["compact"] = rng.randrange(1, 6)
+            obj["compact"] = rng.choice([1, 2, 3, 4, 5, 5, 10, 12, 17, 20])     # name-list keys are decimal numbers
             obj["var"] = gen_var(rng, name, dt, in_force, f)
             obj["var"]["storage"] = ""
             obj["var"]["factor"], obj["var"]["unit"], obj["var"]["desc"] = [1, 1], "", ""
@@ -349,7 +349,7 @@ def proj_od(od):
             rec["dyn"] = []
             if isinstance(o, ODArray) and 1 in o.subindices:
                 # members an array serves on demand (CompactSubObj expansion)
-                for s in range(1, 9):
+                for s in range(1, 25):
                     try:
                         rec["dyn"].append(proj_var(od, None, o[s]))
                     except Exception:  # noqa
